@@ -245,4 +245,8 @@ pub fn run(ctx: &Ctx) {
     ctx.require_class("prefixes", "displacement", 0.2);
     ctx.require_class("prefixes", "sketch_collisions", 0.2);
     ctx.require_class("prefixes", "exact_sketch", 0.15);
+    if ctx.tier == Tier::Thorough && !ctx.failed() {
+        // coverage-guided search over the same case space (libFuzzer, 8 parallel campaigns)
+        crate::engine::fuzz::run_sketch_ops(ctx, 2, 480_000);
+    }
 }
